@@ -191,7 +191,18 @@ func newWorld(cfg map[string]int64, rec *kernel.Rec) (*world, error) {
 	w.vest = vestModel{enabled: cfg["vest_on"] == 1}
 	reward := sdk.NewCoins()
 	pool := sdk.NewCoins()
-	switch cfg["vest_kind"] % 6 {
+	switch cfg["vest_kind"] % 8 {
+	case 6, 7:
+		// many reward denominations (the begin blocker's work grows with the list)
+		n := 12
+		if cfg["vest_kind"]%8 == 7 {
+			n = 24
+		}
+		for i := 0; i < n; i++ {
+			d := fmt.Sprintf("rwd%02d", i)
+			reward = append(reward, sdk.NewCoin(d, sdk.NewInt(int64(3+i))))
+			pool = pool.Add(sdk.NewCoin(d, sdk.NewInt(int64(40+7*i+int(cfg["vest_pool"]%5)))))
+		}
 	case 4:
 		// a denomination listed twice (parameter validation accepts it): the entries add up
 		reward = sdk.Coins{sdk.NewCoin(node.Denom, sdk.NewInt(700)), sdk.NewCoin(node.Denom, sdk.NewInt(600))}
